@@ -13,7 +13,7 @@ open Go Gen Consts
 theorem sso_skeleton_current : Gen.Facts.ssoChain = Expected.ssoChain := by decide
 
 theorem sso_sources_current : FactsUtil.sameHashes ["provider.getAuthRequestFromRequest", "provider.Response.sendBackResponse",
-    "provider.Response.makeFailedResponse", "provider.IdentityProvider.GetServiceProvider",
+    "provider.IdentityProvider.GetServiceProvider",
     "provider.IdentityProvider.GetMetadata", "xml.DecodeAuthNRequest"] = true := by decide
 
 theorem consts_current : Consts.current = true := by decide
